@@ -82,7 +82,7 @@ func ParseFlags() *Flags {
 	flag.Parse()
 	F.Tier, F.Out, F.Seed, F.Replay, F.Scratch, F.Part = *tier, *out, *seed, *replay, *scratch, *part
 	// "<part>_dense" is the same harness part built with statement-level scheduling points (VERIF_DENSE)
-	F.Part = strings.TrimSuffix(F.Part, "_dense")
+	F.Part = strings.TrimSuffix(strings.TrimSuffix(F.Part, "_dense"), "_densefull")
 	sp := strings.Split(*shard, "/")
 	if len(sp) == 2 {
 		F.Shard, _ = strconv.Atoi(sp[0])
